@@ -11,7 +11,7 @@ requests (floats as 16 hex digits or `nan`; `codes` = FLOWDIRCODE.ravel() read f
   down    nrows ncols [codes] [flowdir] [cells]                          -> [d or E]                one entry of c_downstream per cell
   gacc    nrows ncols [codes] [flowdir] maxcells fdnodata none                      -> ok:[acc] [sens] nodata nrows ncols [field memory after] | err:<kind>
   gacc    nrows ncols [codes] [flowdir] maxcells fdnodata fnrows fncols fnodata [fdata]   (grid.accumulate on grid objects: shapes, result no-data, field memory)
-  caccs   nrows ncols [codes] [flowdir] maxcells nodata [field] [acc0] alias(0|1)     -> ok:[field memory after] [accumulation memory after] | err:<kind>
+  caccs   nrows ncols [codes] [flowdir] maxcells nodata [field] [acc0] alias(0|1)     -> ok:[field memory after] [accumulation memory after] [sens] | err:<kind>
   clo     nrows ncols [codes] [flowdir] fuel                                        -> [closure of cell 0;closure of cell 1;...] [direct upstream of 0;...]
   spec    nrows ncols [codes] [flowdir] fuel                             -> allTerminate(0/1) [endsAt per cell, -9 = none]
 -/
@@ -59,7 +59,8 @@ def handle (toks : List String) : String :=
     match grid? nr nc codes fd, mc.toInt?, floatTok? nodata, parseFloatList? field, parseFloatList? acc0 with
     | some g, some mc, some nodata, some field, some acc0 =>
       match cAccumulateS g mc nodata ⟨field.toArray, acc0.toArray, alias == "1"⟩ with
-      | .ok s => "ok:" ++ fmtFloatList s.field.toList ++ " " ++ fmtFloatList s.accArr.toList
+      | .ok s => "ok:" ++ fmtFloatList s.field.toList ++ " " ++ fmtFloatList s.accArr.toList ++ " " ++
+          fmtIntList (orderSensitive g (fuelOf mc))
       | .error e => "err:" ++ errName e
     | _, _, _, _, _ => "bad-op"
   | ["clo", nr, nc, codes, fd, fuel] =>
